@@ -29,7 +29,7 @@ RULE = (
 )
 ASSUMPTIONS = [
     "messages longer than an enabled threshold are outside the statement",
-    "comments / CDATA / processing instructions are not 'equivalent spellings' (left to C11)",
+    "comments / processing instructions are not 'equivalent spellings' (left to C11); a text value wrapped in a CDATA section is",
 ]
 
 
@@ -174,12 +174,23 @@ def corpus():
     tiny = _m("message", {}, choices=None)
     tiny2 = _m("pingReply", {"uid": "1"}, choices=None)
     decl8 = _m("message", {"device": "d"}, choices=[2])  # declaration with encoding="UTF-8"
+    # a peer whose XML writer wraps text values in CDATA sections (markup characters travel raw inside)
+    cd = _m("setTextVector", {"device": "C", "name": "T", "state": "Ok"}, [_p("oneText", {"name": "a"}, "alt > 30 deg"), _p("oneText", {"name": "b"}, "</oneText> <x/>")], choices=[0])
+    cd["spec"]["cdata"] = "force"
+    cd2 = _m("message", {"device": "d", "message": "m"}, choices=[1])
+    # a compressed frame: the declared size is that of the data (1.25 MiB), the payload on the wire is short
+    import base64
+    import zlib
+
+    big = _m("setBLOBVector", {"device": "C", "name": "B", "state": "Ok"}, [_p("oneBLOB", {"name": "b", "size": str(1310720), "format": ".fits.z"}, base64.b64encode(zlib.compress(b"\0" * 1310720)).decode())], choices=[0])
+    over = _m("newBLOBVector", {"device": "C", "name": "B"}, [_p("oneBLOB", {"name": "b", "size": str(1 << 40), "format": ".z"}, "QUJD")], choices=[0])
     short = [
         [gp], [msg], [eb, ping], [gp_f, msg], [ol, ping], [dele, gp], [msg, msg, msg], [ping, eb, msg],
         [tiny, tiny2, gp], [gp, tiny, tiny], [decl8, tiny2, decl8],
     ]
     medium = [
         [gp, st1], [st2, gp_f], [sw, msg2], [sl, ol, gp], [sb, eb], [dn], [gp, dele, st1, msg], [st1, st2, sw, sl],
+        [cd, gp, cd2], [gp, cd], [big, st2, msg], [over, gp_f, ping],
     ]
     return short, medium
 
